@@ -32,7 +32,7 @@ if os.path.exists(jp):
         note = (r.get("note") or "")[:160].replace("|", "/")
         st += f"| {n} | {kind(n)} | {r['checks']} | {verdict} | {det} — {note} |\n"
     tot = len(db); caught = sum(1 for r in db.values() if r["verdict"] == "CAUGHT")
-    st += f"\n{caught} of {tot} changes caught by the checks named for them (quick tier); the remaining entries are equivalent changes that must stay quiet or are discussed below.\n"
+    st += f"\n{caught} of {tot} changes caught by the checks named for them (quick tier unless the row says [thorough]); the remaining entries are equivalent changes that must stay quiet or are discussed below.\n"
 
 # ---- per-property sub-check inventory, straight from the code -------------------------------------------------
 import importlib, sys
